@@ -16,7 +16,7 @@ Your task: produce THREE independent, realistic, BEHAVIOUR-PRESERVING changes to
   patch3: a correct optimisation or robustness tweak that does not change results (e.g. avoid a redundant copy that is provably not needed, hoist an invariant computation out of a loop, preallocate, compute a quantity once).
 Each patch is made from the clean HEAD (not stacked): make the edit, save `git -C {wt} diff -- tangermeme > {wt}/refactor_out/patchN.diff`, then `git -C {wt} checkout -- tangermeme` before the next one. Keep each patch focused on the functions that implement the property (10-60 changed lines is typical).
 
-For each patch verify, with the patch applied: (1) `cd {wt} && PYTHONPATH={wt} /venv/bin/python -m pytest -q -p no:cacheprovider tests/<the test files that touch the code you changed>` passes exactly as on the clean tree (the 7 test_captum_* tests and 2 test_cmd_tomtom* tests fail on the clean tree for offline reasons; tests/tools/test_tomtom.py::test_tomtom_homomotifs is flaky; ignore those); (2) write a small script {wt}/refactor_out/equivN.py that compares the patched functions against the ORIGINAL implementation on a few hundred random and edge-case inputs (import the original from a pristine copy: `git -C {wt} show HEAD:tangermeme/<file>.py > {wt}/refactor_out/orig_<file>.py` and load it with importlib under another module name; for modules with relative imports set `__package__ = 'tangermeme'` / load via importlib.util.spec_from_file_location with name 'tangermeme.<something>_orig' after importing tangermeme) and prints EQUIVALENT or the first difference; it must print EQUIVALENT. Always run python as `PYTHONPATH={wt} /venv/bin/python` and use device='cpu'. NEVER use git stash. Do not run the full test suite (the machine is shared); the relevant test files are enough.
+For each patch verify, with the patch applied: (1) `cd {wt} && PYTHONPATH={wt} /venv/bin/python -m pytest -q -p no:cacheprovider tests/<the test files that touch the code you changed>` passes exactly as on the clean tree (the 7 test_captum_* tests and 2 test_cmd_tomtom* tests fail on the clean tree for offline reasons; tests/tools/test_tomtom.py::test_tomtom_homomotifs is flaky; ignore those); (2) write a small script {wt}/refactor_out/equivN.py that compares the patched functions against the ORIGINAL implementation on a few hundred random and edge-case inputs (import the original from a pristine copy: `git -C {wt} show HEAD:tangermeme/<file>.py > {wt}/refactor_out/orig_<file>.py` and load it with importlib under another module name; for modules with relative imports set `__package__ = 'tangermeme'` / load via importlib.util.spec_from_file_location with name 'tangermeme.<something>_orig' after importing tangermeme) and prints EQUIVALENT or the first difference; it must print EQUIVALENT. Always run python as `OMP_NUM_THREADS=1 PYTHONPATH={wt} /venv/bin/python` (the machine is shared: call torch.set_num_threads(1) in your scripts) and use device="cpu". NEVER use git stash. Do not run the full test suite (the machine is shared); the relevant test files are enough.
 
 Deliverables in {wt}/refactor_out/: patch1.diff, patch2.diff, patch3.diff, equiv1.py, equiv2.py, equiv3.py, and notes.json = {{"property": "{pid}", "patches": [{{"file": "patch1.diff", "what": "<one sentence>", "tests": "<command and result>"}}, ...]}}. Leave the worktree clean (git checkout) at the end. Reply with a short summary of the three changes.
 """
